@@ -986,7 +986,7 @@ def argv_stream(ctx, drv_cli):
 
 
 def run(ctx: common.Ctx):
-    drivers = ctx.prove(["C12"], exes=["overwrite", "cli"])
+    drivers = ctx.prove(["C12", "C12Fs"], exes=["overwrite", "cli"])
     drv = drivers.get("overwrite")
     argv_stream(ctx, drivers.get("cli"))
     ctx.rule = ("cli: histories of 3-6 real nnvg invocations under strace (language, --file-mode, --no-overwrite, --omit-serialization-support, "
@@ -1021,6 +1021,11 @@ def run(ctx: common.Ctx):
     with cf.ThreadPoolExecutor(max_workers=min(16, os.cpu_count() or 4)) as pool:
         do_lib(ctx, drv, lib_exh, pool, "exh")
         do_lib(ctx, drv, lib_rand, pool, "rand")
+        # directories and symbolic links (Model/OverwriteFs.lean)
+        from . import c12_fsx
+        fsx = c12_fsx.corpus_scenarios() + c12_fsx.gen_scenarios(rng, 150 if ctx.quick else 4000)
+        ctx.extra["domain"]["fsx_histories"] = len(fsx)
+        c12_fsx.run_stream(ctx, drv, sys.modules[__name__], fsx, pool)
         do_cli(ctx, drv, cli_hist, pool)
     if ctx.failures or ctx.disagreements:
         dig = {}
@@ -1041,6 +1046,21 @@ def replay(ctx, path):
     r = json.loads(open(path).read())
     rp = r.get("replay", {})
     h = rp.get("history")
+    if rp.get("scenario") and "init" in rp["scenario"]:
+        # stream fsx: the scenario (initial tree + runs) again, implementation side only
+        from . import c12_fsx
+        ctx.scratch
+        sc = {"init": [list(e) for e in rp["scenario"]["init"]], "runs": rp["scenario"]["runs"]}
+        with cf.ThreadPoolExecutor(max_workers=2) as pool:
+            c12_fsx.run_stream(ctx, None, sys.modules[__name__], [sc], pool, label="replay")
+        for f in ctx.failures:
+            print(json.dumps({"key": f["key"], "what": f["what"], "step": f["replay"].get("step"), "path": f["replay"].get("path")}))
+        n = len([f for f in ctx.failures if f["key"].get("kind") == r.get("key", {}).get("kind")])
+        ctx.cleanup()
+        return 1 if n else 0
+    if rp.get("argv") is not None:
+        print("command-line stream: re-run ./check C12 (the argv is in the replay file)")
+        return 1
     if not h or h.get("stream") != "cli":
         print("nothing to replay (no cli history in the file)")
         return 1
